@@ -95,6 +95,24 @@ int main() {
 				if (X.data.size() != Y.data.size()) { worst = 1e300; where = "dims"; continue; }
 				for (size_t i = 0; i < X.data.size(); i++) { scale = std::max(scale, std::fabs(Y.data[i])); double d = std::fabs(X.data[i] - Y.data[i]); if (d > worst || d != d) { worst = d != d ? 1e300 : d; where = std::to_string(sa) + "," + std::to_string(sb); } }
 			}
+			{
+				// a shell object that has been used in a derivative call and is then edited in place (public contraction coefficients) must
+				// behave like a freshly built shell with the edited contraction: nothing derived from the old contraction may survive in it
+				std::array<TwoIndex<double>, 9> R0, R1, R2;
+				engD.compute_shell_pair_derivative(U, A, B, R0);
+				for (size_t i = 0; i < A.coeffs.size(); i++) A.coeffs[i] *= (i % 2 ? 3.0 : 0.25);
+				for (size_t i = 0; i < B.coeffs.size(); i++) B.coeffs[i] *= (i % 2 ? 0.5 : 1.75);
+				engD.compute_shell_pair_derivative(U, A, B, R1);
+				GaussianShell A3(std::array<double,3>{A.center()[0], A.center()[1], A.center()[2]}, A.am()), B3(std::array<double,3>{B.center()[0], B.center()[1], B.center()[2]}, B.am());
+				for (int i = 0; i < A.nprimitive(); i++) A3.addPrim(A.exp(i), A.coef(i));
+				for (int i = 0; i < B.nprimitive(); i++) B3.addPrim(B.exp(i), B.coef(i));
+				engD.compute_shell_pair_derivative(U, A3, B3, R2);
+				nblk += 9;
+				for (int k = 0; k < 9; k++) for (size_t i = 0; i < R1[k].data.size() && i < R2[k].data.size(); i++) {
+					scale = std::max(scale, std::fabs(R2[k].data[i])); double d = std::fabs(R1[k].data[i] - R2[k].data[i]);
+					if (d > worst || d != d) { worst = d != d ? 1e300 : d; where = "edited-in-place"; }
+				}
+			}
 			std::cout << "< S " << nblk << " " << bits(worst) << " " << bits(scale) << " " << where << "\n< end\n";
 			continue;
 		}
